@@ -1066,8 +1066,9 @@ def from_json(
             buffersize=buffersize,
         )
     elif not is_path and (
-        (isinstance(source, bytes) and _maybe_json_bytes.match(source))
-        or _maybe_json_str.match(source)
+        _maybe_json_bytes.match(source)
+        if isinstance(source, bytes)
+        else _maybe_json_str.match(source)
     ):
         layout = ak._ext.fromjson(
             source,
